@@ -870,128 +870,49 @@ let in_quotes = function
          | _ -> false)
       | _ -> false))
 
+(** val escape_image : n -> n option **)
+
+let escape_image e =
+  if (||)
+       ((||)
+         ((||) (N.eqb e (Npos (XO (XI (XO (XO (XO XH)))))))
+           (N.eqb e (Npos (XO (XO (XI (XI (XI (XO XH)))))))))
+         (N.eqb e (Npos (XI (XI (XI (XI (XO XH))))))))
+       (N.eqb e (Npos (XI (XI (XI (XO (XO XH)))))))
+  then Some e
+  else if N.eqb e (Npos (XO (XI (XO (XO (XO (XI XH)))))))
+       then Some (Npos (XO (XO (XO XH))))
+       else if N.eqb e (Npos (XO (XI (XI (XO (XO (XI XH)))))))
+            then Some (Npos (XO (XO (XI XH))))
+            else if N.eqb e (Npos (XO (XI (XI (XI (XO (XI XH)))))))
+                 then Some (Npos (XO (XI (XO XH))))
+                 else if N.eqb e (Npos (XO (XI (XO (XO (XI (XI XH)))))))
+                      then Some (Npos (XI (XO (XI XH))))
+                      else if N.eqb e (Npos (XO (XO (XI (XO (XI (XI XH)))))))
+                           then Some (Npos (XI (XO (XO XH))))
+                           else None
+
 (** val unquote_body : bytes -> bytes option **)
 
 let rec unquote_body = function
 | [] -> Some []
 | c :: rest ->
-  (match c with
-   | N0 ->
-     if (||) (N.eqb c (Npos (XO (XI (XO (XO (XO XH)))))))
-          (N.ltb c (Npos (XO (XO (XO (XO (XO XH)))))))
-     then None
-     else (match unquote_body rest with
-           | Some t -> Some (c :: t)
-           | None -> None)
-   | Npos p ->
-     (match p with
-      | XO p0 ->
-        (match p0 with
-         | XO p1 ->
-           (match p1 with
-            | XI p2 ->
-              (match p2 with
-               | XI p3 ->
-                 (match p3 with
-                  | XI p4 ->
-                    (match p4 with
-                     | XO p5 ->
-                       (match p5 with
-                        | XH ->
-                          (match rest with
-                           | [] -> None
-                           | e :: rest' ->
-                             let img =
-                               if (||)
-                                    ((||)
-                                      ((||)
-                                        (N.eqb e (Npos (XO (XI (XO (XO (XO
-                                          XH)))))))
-                                        (N.eqb e (Npos (XO (XO (XI (XI (XI
-                                          (XO XH)))))))))
-                                      (N.eqb e (Npos (XI (XI (XI (XI (XO
-                                        XH))))))))
-                                    (N.eqb e (Npos (XI (XI (XI (XO (XO
-                                      XH)))))))
-                               then Some e
-                               else if N.eqb e (Npos (XO (XI (XO (XO (XO (XI
-                                         XH)))))))
-                                    then Some (Npos (XO (XO (XO XH))))
-                                    else if N.eqb e (Npos (XO (XI (XI (XO (XO
-                                              (XI XH)))))))
-                                         then Some (Npos (XO (XO (XI XH))))
-                                         else if N.eqb e (Npos (XO (XI (XI
-                                                   (XI (XO (XI XH)))))))
-                                              then Some (Npos (XO (XI (XO
-                                                     XH))))
-                                              else if N.eqb e (Npos (XO (XI
-                                                        (XO (XO (XI (XI
-                                                        XH)))))))
-                                                   then Some (Npos (XI (XO
-                                                          (XI XH))))
-                                                   else if N.eqb e (Npos (XO
-                                                             (XO (XI (XO (XI
-                                                             (XI XH)))))))
-                                                        then Some (Npos (XI
-                                                               (XO (XO XH))))
-                                                        else None
-                             in
-                             (match img with
-                              | Some c0 ->
-                                (match unquote_body rest' with
-                                 | Some t -> Some (c0 :: t)
-                                 | None -> None)
-                              | None -> None))
-                        | _ ->
-                          if (||)
-                               (N.eqb c (Npos (XO (XI (XO (XO (XO XH)))))))
-                               (N.ltb c (Npos (XO (XO (XO (XO (XO XH)))))))
-                          then None
-                          else (match unquote_body rest with
-                                | Some t -> Some (c :: t)
-                                | None -> None))
-                     | _ ->
-                       if (||) (N.eqb c (Npos (XO (XI (XO (XO (XO XH)))))))
-                            (N.ltb c (Npos (XO (XO (XO (XO (XO XH)))))))
-                       then None
-                       else (match unquote_body rest with
-                             | Some t -> Some (c :: t)
-                             | None -> None))
-                  | _ ->
-                    if (||) (N.eqb c (Npos (XO (XI (XO (XO (XO XH)))))))
-                         (N.ltb c (Npos (XO (XO (XO (XO (XO XH)))))))
-                    then None
-                    else (match unquote_body rest with
-                          | Some t -> Some (c :: t)
-                          | None -> None))
-               | _ ->
-                 if (||) (N.eqb c (Npos (XO (XI (XO (XO (XO XH)))))))
-                      (N.ltb c (Npos (XO (XO (XO (XO (XO XH)))))))
-                 then None
-                 else (match unquote_body rest with
-                       | Some t -> Some (c :: t)
-                       | None -> None))
-            | _ ->
-              if (||) (N.eqb c (Npos (XO (XI (XO (XO (XO XH)))))))
-                   (N.ltb c (Npos (XO (XO (XO (XO (XO XH)))))))
-              then None
-              else (match unquote_body rest with
-                    | Some t -> Some (c :: t)
-                    | None -> None))
-         | _ ->
-           if (||) (N.eqb c (Npos (XO (XI (XO (XO (XO XH)))))))
-                (N.ltb c (Npos (XO (XO (XO (XO (XO XH)))))))
-           then None
-           else (match unquote_body rest with
-                 | Some t -> Some (c :: t)
-                 | None -> None))
-      | _ ->
-        if (||) (N.eqb c (Npos (XO (XI (XO (XO (XO XH)))))))
-             (N.ltb c (Npos (XO (XO (XO (XO (XO XH)))))))
-        then None
-        else (match unquote_body rest with
-              | Some t -> Some (c :: t)
-              | None -> None)))
+  if N.eqb c (Npos (XO (XO (XI (XI (XI (XO XH)))))))
+  then (match rest with
+        | [] -> None
+        | e :: rest' ->
+          (match escape_image e with
+           | Some x ->
+             (match unquote_body rest' with
+              | Some t -> Some (x :: t)
+              | None -> None)
+           | None -> None))
+  else if (||) (N.eqb c (Npos (XO (XI (XO (XO (XO XH)))))))
+            (N.ltb c (Npos (XO (XO (XO (XO (XO XH)))))))
+       then None
+       else (match unquote_body rest with
+             | Some t -> Some (c :: t)
+             | None -> None)
 
 (** val unquote : bytes -> bytes **)
 
@@ -8776,7 +8697,7 @@ let prog_table =
     true, true, false, true, true, false)), (String ((Ascii (false, false,
     true, false, true, true, true, false)),
     EmptyString)))))))))))))))))))))))))))))))))))),
-    (block ((SIf ((COr (CNewLine, (CByte N0))),
+    (block ((SIf ((COr ((CByte (Npos (XO (XI (XO XH))))), (CByte N0))),
       (block (SPop :: (SRetRedispatch :: []))),
       (block (SRetNil :: [])))) :: []))) :: (((String ((Ascii (true, true,
     false, false, true, true, true, false)), (String ((Ascii (false, false,
